@@ -131,6 +131,19 @@ Definition run_buildhdr (args : list (list byte)) : list byte :=
   | _ => s2b "BADCASE"
   end.
 
+(* HDRMOD word op rc: parse a header with this flags word, replace opcode and response code through the accessors, serialise *)
+Definition run_hdrmod (args : list (list byte)) : list byte :=
+  match map hex_to_N args with
+  | [Some w; Some op; Some rc] =>
+    let d := be_enc 2 4660 ++ be_enc 2 w ++ be_enc 2 0 ++ be_enc 2 0 ++ be_enc 2 0 ++ be_enc 2 0 in
+    match parse_header d with
+    | Ok h => let h' := {| h_id := h_id h; h_opcode := opcode_of_code op; h_rcode := rcode_of_code rc; h_flags := h_flags h |} in
+              s2b "OK " ++ bytes_to_hex (write_header h' 0 0 0 0)
+    | Err e => err_line e | Panic s => s2b "PANIC" | OutOfFuel => s2b "HANG"
+    end
+  | _ => s2b "BADCASE"
+  end.
+
 (* ---- packet cases ---- *)
 (* PARSE hex: Packet::parse, canonical dump *)
 Definition run_parse (args : list (list byte)) : list byte :=
@@ -213,7 +226,7 @@ Definition overwrite (storage : list byte) (start : N) (msg : list byte) : list 
   pre ++ pad ++ msg ++ skipn (N.to_nat (start + len msg)) storage.
 Definition write_into (kind : list byte) (start : N) (storage msg : list byte) : outcome (list byte * N) :=
   if tok_eqb kind "V" then Ok (storage ++ msg, len storage + len msg)
-  else if tok_eqb kind "G" then Ok (overwrite storage start msg, start + len msg)
+  else if tok_eqb kind "G" || tok_eqb kind "Q" then Ok (overwrite storage start msg, start + len msg)   (* Q: a growable writer whose write() accepts a few bytes per call *)
   else if start + len msg <=? len storage then Ok (overwrite storage start msg, start + len msg)
   else Err FailedToWrite.
 Definition run_buildw (args : list (list byte)) : list byte :=
@@ -683,5 +696,6 @@ Definition run_line (line : list byte) : list byte :=
     else if tok_eqb cmd "PEEK" then run_peek args
     else if tok_eqb cmd "FLAGS" then run_flags args
     else if tok_eqb cmd "BUILDHDR" then run_buildhdr args
+    else if tok_eqb cmd "HDRMOD" then run_hdrmod args
     else s2b "BADCASE"
   end.
